@@ -382,6 +382,22 @@ def run(ck):
     clh = [e for g_ in creg for e in g_.events("call") if comp_of(e) == "content-length"]
     ok = len(te) == 1 and not clh and lib.refs_enumerator(te[0], H + "Header::Encoding::Chunked")
     ck.ob("C05-R3", "ResponseStream::ResponseStream/chunked-no-length", ok, ctor[0].loc, ctor[0], "Transfer-Encoding: chunked, no Content-Length")
+    # ... on every path: the body that follows is always chunk-framed, so the announcement cannot depend on anything (a handler that has
+    # set a Transfer-Encoding of its own does not change how write() frames the data)
+    if te:
+        summ_te = lib.Summaries(prog)
+        must_te = summ_te.lift_must(lambda e: e["k"] == "call" and comp_of(e) == "transfer-encoding" and lib.refs_enumerator(e, H + "Header::Encoding::Chunked"), "writes-te-chunked")
+        cf = prog.flat(ctor[0])
+        # paths on which one of the head writers has reported that the head does not fit are refusals, not responses (the status-line and
+        # cookie arms throw; the header arm leaves the constructor without completing the head -- nothing well-formed is claimed for it)
+        refused = set()
+        for wfn in {strip_tmpl(e.get("callee") or "") for e in cf.events("call") if strip_tmpl(e.get("callee") or "").startswith(H + "write") or
+                    strip_tmpl(e.get("callee") or "").startswith(H + "(anonymous namespace)::write")}:
+            refused |= set(lib.result_edges(cf, wfn, False))
+        loose = [x for x in cfg.exits_without(cf, must_te, avoid_edge=lambda st, blk, k, sid: None if (blk.id, k) in refused else st) if x.kind != "throw"]
+        ck.ob("C05-R3", "ResponseStream::ResponseStream/chunked-on-every-path", not loose, te[0].loc, ctor[0],
+              "every way through the constructor announces chunked transfer coding" if not loose else
+              "a path through the ResponseStream constructor does not write `Transfer-Encoding: chunked` although every write() that follows is chunk-framed")
 
     # ---------------- R4 ----------------
     ov = lib.single(prog, DSB + "overflow")
